@@ -417,15 +417,43 @@ Definition extract_entry (g : cfg) (pres : bool) (cwd : path) (dp : list name) (
     end
   end.
 
-(* extraction stops at the first error; effects of earlier entries stay *)
+(* the mode the archive records for the unpack directory itself (a directory entry that
+   resolves to "."); the last one wins *)
+Definition root_dir_mode (dp : list name) (dirName : str) (e : entry) : option N :=
+  match e with
+  | EDir nm m => match entry_rel dp dirName nm with Some [] => Some m | _ => None end
+  | _ => None
+  end.
+
+(* narrowDirMode(dirPath, mode): permission bits not in mode are removed from the existing
+   directory (never widened); Lstat, then os.Chmod when something changes *)
+Definition narrow_base (f : fsys) (dp : list name) (m : N) : option fsys :=
+  match lookup f dp with
+  | Some NDir =>
+    let want := N.land (dir_mode f dp) m in
+    if (want =? dir_mode f dp)%N then Some f else chmod_at f dp want
+  | None => None
+  | _ => Some f
+  end.
+
+(* extraction stops at the first error; effects of earlier entries stay.  At the end of the
+   archive, without PreservePermissions, the unpack directory (created by the caller with the
+   default mode) is narrowed to the mode recorded for it. *)
 Fixpoint extract (g : cfg) (pres : bool) (cwd : path) (dp : list name) (dirName : str) (f : fsys) (es : list entry)
-  : fsys * bool :=
+  (base : option N) : fsys * bool :=
   match es with
-  | [] => (f, true)
+  | [] =>
+    match base with
+    | Some m => if pres then (f, true)
+                else match narrow_base f dp m with Some f' => (f', true) | None => (f, false) end
+    | None => (f, true)
+    end
   | e :: r =>
     match extract_entry g pres cwd dp dirName f e with
     | None => (f, false)
-    | Some f' => extract g pres cwd dp dirName f' r
+    | Some f' =>
+      extract g pres cwd dp dirName f' r
+              (match root_dir_mode dp dirName e with Some m => Some m | None => base end)
     end
   end.
 
@@ -483,7 +511,7 @@ Definition push (g : cfg) (pres : bool) (wd cwd : path) (s : store) (o : pushop)
       match made with
       | None => (s, false)
       | Some f1 =>
-        let '(f2, ok) := extract g pres cwd dp title f1 es in
+        let '(f2, ok) := extract g pres cwd dp title f1 es None in
         (mkStore f2 (if ok then title :: st_names s else st_names s), ok)
       end
     end
